@@ -31,6 +31,13 @@
 //    (non-terminating) failure of the same test, in teardown() after a passing body, in teardown() after a body that
 //    failed for an unrelated reason. Judged everywhere alike: the check adds a failure of its own iff a designation is
 //    pending (the failure the test recorded before is subtracted, the wording is only judged when recognised).
+//  * boundary values of the location dimension: ("<unknown>", 0) is a location like any other - it is the one every allocation
+//    made WITHOUT location information reports to the allocator (cpputest_malloc / calloc / strdup / strndup without
+//    _location, plain and nothrow operator new / new[]). The model therefore counts those allocations at ("<unknown>", 0),
+//    together with allocations that name that location explicitly (through the harness's own copy of the text), and a
+//    designation there interleaves located and un-located allocations. Line 0 with a real file name, "<unknown>" with a real
+//    line and a line above 65535 (equal to line 10 modulo 2^16) are further locations of the random histories, of fault
+//    enumeration workload 4 and (the "<unknown>":0 one) of the failable malloc allocators of the C-level episodes.
 //  * the C interface's allocation statistics (cpputest_malloc_count_reset / cpputest_malloc_get_count) are part of the
 //    C-level histories: they may be called anywhere, also while a countdown is pending. They are no injection calls, so
 //    the model ignores them; the value get_count returns is observed and counted, never judged (outside the statement).
@@ -60,15 +67,23 @@ static char F_LB[] = "/home/builder/workspace/product/firmware/components/connec
 // two scratch names, rewritten by the name-discrimination section for every case (ids 7 and 8)
 static const int NAME_PMAX = 272;
 static char DYN_X[NAME_PMAX + 32], DYN_Y[NAME_PMAX + 32];
+// boundary values of the location dimension. ("<unknown>", 0) is the location every allocation WITHOUT location
+// information reports to the allocator (cpputest_malloc/calloc/strdup/strndup without _location, plain and nothrow
+// operator new / new[]): the harness's own copy of the text is a second file pointer for it. Line 0 with a real file
+// name, the "<unknown>" name with a real line, and a line above 65535 that equals line 10 modulo 2^16.
+static char F_UNK[] = "<unknown>";
 static const Loc LOCS[] = {
     { F_A1, 10, 0, "A10" }, { F_A1, 11, 1, "A11" }, { F_B, 10, 2, "B10" }, { F_A2, 10, 0, "A10alias" }, { F_AP, 10, 3, "Acpp10" }, { F_DIR, 10, 4, "dirA10" },
     { F_LA, 10, 5, "longAlpha10" }, { F_LB, 10, 6, "longBeta10" }, { DYN_X, 10, 7, "X10" }, { DYN_Y, 10, 8, "Y10" },
+    { F_UNK, 0, 9, "unknown0" }, { F_A1, 0, 10, "A0" }, { F_UNK, 10, 11, "unknown10" }, { F_A2, 65546, 12, "A65546" },
 };
-static const int NLOC = 10, NLOC_RANDOM = 8, NLOCID = 9;
-enum { L_DYN_X = 8, L_DYN_Y = 9 };
+static const int NLOC = 14, NLOC_RANDOM = 8, NLOCID = 13;
+enum { L_DYN_X = 8, L_DYN_Y = 9, L_UNK0 = 10, L_A0 = 11, L_UNK10 = 12, L_A65546 = 13 };
+// class of a boundary location (names the input class in violation keys and counters); "" for an ordinary one
+static const char* loc_class(int L) { return L == L_UNK0 ? "unknown-file-line-0" : L == L_A0 ? "line-0" : L == L_UNK10 ? "unknown-file" : L == L_A65546 ? "line-above-65535" : ""; }
 
 // ================================================================ model (independent of the implementation)
-struct MDes { bool isLoc; int n; int locid; bool fired; };
+struct MDes { bool isLoc; int n; int locid; bool fired; int L; };
 struct Model {
     int count = 0; int cnt[NLOCID] = {}; int clears = 0;
     std::vector<MDes> des;
@@ -83,6 +98,11 @@ struct Model {
         return hit;
     }
     int pending() const { int k = 0; for (const MDes& d : des) if (!d.fired) k |= d.isLoc ? 2 : 1; return k; }
+    // a pending location designation at a boundary location (line-0 locations first): its LOCS index + 1
+    int pending_boundary() const {
+        for (int pass = 0; pass < 2; pass++) for (const MDes& d : des) if (!d.fired && d.isLoc && d.L >= 0 && loc_class(d.L)[0] && (pass == 1 || LOCS[d.L].line == 0)) return d.L + 1;
+        return 0;
+    }
     void clear() { des.clear(); count = 0; for (int& x : cnt) x = 0; clears++; }
 };
 static const char* kindname(int k) { return k == 1 ? "global" : k == 2 ? "location" : k == 3 ? "both" : "none"; }
@@ -105,6 +125,8 @@ struct Step {
     int kind, a, L, n, fam, size, aux, victim, ctx; bool isLoc;
     // expectation (from the model, computed while the scenario is built)
     bool exp_fail; int hit; bool after_clear; int pend; bool exp_checkfail;
+    int gidx, lidx;          // overall index / index at its location of an allocation (model)
+    int pend_bnd;            // a location designation at a boundary location (loc_class) is pending: its LOCS index + 1
     // observation (written by the test body: plain data only)
     int obs; bool content_bad; bool reached, returned; int fail_delta;
 };
@@ -135,16 +157,18 @@ struct Builder {
     Step* push(int kind) { if (n >= MAXSTEPS) { overflow = true; return &g_steps[MAXSTEPS - 1]; } Step* s = &g_steps[n++]; memset((void*) s, 0, sizeof *s); s->kind = kind; s->a = -1; s->L = -1; return s; }
     void reg(int a, bool isLoc, int num, int L) {
         Step* s = push(K_REG); s->a = a; s->isLoc = isLoc; s->n = num; s->L = isLoc ? L : -1;
-        MDes d; d.isLoc = isLoc; d.n = num; d.locid = isLoc ? LOCS[L].id : -1; d.fired = false; model[a].des.push_back(d);
+        MDes d; d.isLoc = isLoc; d.n = num; d.locid = isLoc ? LOCS[L].id : -1; d.fired = false; d.L = isLoc ? L : -1; model[a].des.push_back(d);
     }
     // a_direct only used in direct mode
     void alloc(int a_direct, int L, int fam, int size, int aux = 0) {
-        Step* s = push(K_ALLOC); s->fam = fam; s->size = size; s->aux = aux; s->L = fam_has_loc(fam) ? L : -1;
+        // an allocation without location information is an allocation at ("<unknown>", 0)
+        Step* s = push(K_ALLOC); s->fam = fam; s->size = size; s->aux = aux; s->L = fam_has_loc(fam) ? L : L_UNK0;
         s->a = fam == F_DIRECT ? a_direct : route[fam_group(fam)];
         if (s->a >= 0) {
             Model& m = model[s->a];
-            s->pend = m.pending();
-            s->hit = m.alloc(s->L >= 0 ? LOCS[s->L].id : -1);
+            s->pend = m.pending(); s->pend_bnd = m.pending_boundary();
+            s->hit = m.alloc(LOCS[s->L].id);
+            s->gidx = m.count; s->lidx = m.cnt[LOCS[s->L].id];
             s->exp_fail = s->hit != 0; s->after_clear = m.clears > 0;
         }
     }
@@ -302,6 +326,7 @@ static void scenario_teardown() {
 
 // ================================================================ run + judge
 static void viol_once(vf::Ctx& c, std::set<std::string>& seen, const std::string& key, const std::string& detail) { if (seen.insert(key).second) c.violation(key, detail); }
+static std::string us(std::string t) { for (char& ch : t) if (ch == '-') ch = '_'; return t; }
 
 static void run_and_judge(vf::Ctx& c, Builder& b, const std::string& ntsig, bool nontrivial) {
     std::string desc = b.describe();
@@ -370,24 +395,42 @@ static void run_and_judge(vf::Ctx& c, Builder& b, const std::string& ntsig, bool
     // judge every allocation
     for (int i = 0; i < b.n; i++) {
         const Step& s = g_steps[i];
-        if (s.kind == K_REG) { c.count(s.isLoc ? "designations_location" : "designations_global"); continue; }
+        if (s.kind == K_REG) { c.count(s.isLoc ? "designations_location" : "designations_global"); if (s.isLoc && loc_class(s.L)[0]) c.count("designations_location_" + us(loc_class(s.L))); continue; }
         if (s.kind == K_CLEAR) { c.count("clears"); continue; }
         if (s.kind != K_ALLOC) continue;
         if (s.obs == O_NONE) { viol_once(c, seen, "fa:step-not-executed", "allocation step " + std::to_string(i) + " was never executed"); continue; }
         std::string fam = FAM_NAME[s.fam];
         std::string ac = s.after_clear ? ":after-clear" : "";
         c.count("alloc_" + fam);
+        // boundary values of the location dimension: class of this allocation's location / of a pending designation's
+        bool unloc = !fam_has_loc(s.fam);
+        std::string lc = loc_class(s.L);
+        std::string hitcls = (s.hit & 2) && !lc.empty() ? ":at-" + lc + (unloc ? ":allocation-without-location-information" : "") : "";
+        std::string pendcls = s.pend_bnd ? std::string(":incl-") + loc_class(s.pend_bnd - 1) : "";
+        if (s.a >= 0) {
+            if (unloc) c.count("alloc_without_location_information_through_failable");
+            if (!lc.empty()) c.count("alloc_at_" + us(lc));
+            if (s.pend_bnd) {
+                c.count("alloc_while_designation_pending_at_" + us(loc_class(s.pend_bnd - 1)));
+                if (s.pend_bnd - 1 == L_UNK0) c.count(unloc ? "alloc_without_location_information_while_unknown_file_line_0_designated" : LOCS[s.L].id != LOCS[L_UNK0].id ? "alloc_with_other_location_while_unknown_file_line_0_designated" : "alloc_naming_unknown_file_line_0_while_it_is_designated");
+            }
+            if ((s.hit & 2) && !lc.empty()) {
+                c.count("designated_hit_at_" + us(lc));
+                if (unloc) c.count("designated_hit_at_unknown_file_line_0_by_allocation_without_location_information");
+                if (s.gidx != s.lidx) c.count(LOCS[s.L].line == 0 ? "designated_hit_at_line_0_location_overall_index_differs" : "designated_hit_at_other_boundary_location_overall_index_differs");
+            }
+        }
         if (s.a < 0) {
             c.count("alloc_through_unrouted_family");
             if (s.obs != O_OK) viol_once(c, seen, "fa:unrouted-family-failed:" + fam, "allocation through a family that is not routed to a failable allocator failed (step " + std::to_string(i) + ", " + md + ")");
         } else if (s.exp_fail) {
             c.count(std::string("designated_hit_") + kindname(s.hit));
-            if (s.obs == O_OK) viol_once(c, seen, std::string("fa:designated-succeeded:") + kindname(s.hit) + ac, "step " + std::to_string(i) + " (" + md + ", " + fam + ") is a designated allocation (" + kindname(s.hit) + ") but returned a block");
+            if (s.obs == O_OK) viol_once(c, seen, std::string("fa:designated-succeeded:") + kindname(s.hit) + ac + hitcls, "step " + std::to_string(i) + " (" + md + ", " + fam + ") is a designated allocation (" + kindname(s.hit) + ": allocation #" + std::to_string(s.lidx) + " at " + LOCS[s.L].tag + (unloc ? " [no location information given]" : "") + ", #" + std::to_string(s.gidx) + " overall) but returned a block");
             else if (s.obs == O_BADALLOC) { c.count("failed_by_bad_alloc"); if (!fam_throws(s.fam)) viol_once(c, seen, "fa:nothrow-form-threw:" + fam, "step " + std::to_string(i)); }
             else { c.count("failed_by_null"); if (fam_throws(s.fam)) c.count("throwing_form_returned_null"); }
         } else {
             c.count("undesignated_allocations");
-            if (s.obs != O_OK) viol_once(c, seen, std::string("fa:undesignated-failed:pending=") + kindname(s.pend) + ac, "step " + std::to_string(i) + " (" + md + ", " + fam + ") is not designated but " + (s.obs == O_BADALLOC ? "threw bad_alloc" : "returned NULL"));
+            if (s.obs != O_OK) viol_once(c, seen, std::string("fa:undesignated-failed:pending=") + kindname(s.pend) + ac + pendcls, "step " + std::to_string(i) + " (" + md + ", " + fam + ", allocation #" + std::to_string(s.lidx) + " at " + LOCS[s.L].tag + (unloc ? " [no location information given]" : "") + ", #" + std::to_string(s.gidx) + " overall) is not designated but " + (s.obs == O_BADALLOC ? "threw bad_alloc" : "returned NULL"));
         }
         if (s.content_bad) viol_once(c, seen, "fa:content:" + fam, "block content wrong (calloc not zero / strdup copy differs / fill pattern damaged) at step " + std::to_string(i) + " (" + md + ")");
     }
@@ -435,6 +478,16 @@ static void gen_random(Builder& b, vf::Rng& r) {
     if (r.chance(30)) { locs.push_back(0); locs.push_back(3); }      // alias pair
     while ((int) locs.size() < k) { int L = (int) r.below(NLOC_RANDOM); if (std::find(locs.begin(), locs.end(), L) == locs.end()) locs.push_back(L); }
     if (r.chance(10)) { locs.resize(1); }                            // single-location history (trivial by the rule, still judged)
+    // boundary values of the location dimension (45 % of the histories): one boundary location and, in 60 %, a location it is
+    // easily confused with. Installed histories make allocations without location information anyway (5 of 16 draws):
+    // they are allocations at "<unknown>":0, so a designation there interleaves located and un-located allocations.
+    if (r.chance(45)) {
+        static const int BND[] = { L_UNK0, L_UNK0, L_A0, L_UNK10, L_A65546 };
+        int Lb = BND[r.below(5)];
+        int add[2] = { Lb, -1 };
+        if (r.chance(60)) { bool x = r.chance(50); add[1] = Lb == L_UNK0 ? (x ? L_A0 : L_UNK10) : Lb == L_A0 ? (x ? 0 : L_UNK0) : Lb == L_UNK10 ? (x ? L_UNK0 : 0) : 0; }
+        for (int L : add) if (L >= 0 && std::find(locs.begin(), locs.end(), L) == locs.end()) { if (r.chance(50)) locs.insert(locs.begin(), L); else locs.push_back(L); }
+    }
     int H = r.range(5, 40), phases = 1 + (int) r.below(3);
     auto pickloc = [&]() { return r.chance(50) ? locs[0] : locs[r.below(locs.size())]; };
     for (int ph = 0; ph < phases; ph++) {
@@ -506,11 +559,11 @@ static void sec_installed_random(vf::Ctx& c) {
 // ================================================================ fault enumeration (seed independent, complete)
 // workload w: fixed history of N allocations over three locations (+ alias pointer) and, when installed, all families
 struct WOp { int L, fam, size, aux; };
-struct Workload { int N; bool pairs; std::vector<WOp> ops_direct, ops_installed; std::vector<std::pair<int, int>> universe; /* (-1,n) global | (locid, j) */ };
+struct Workload { int N; bool pairs; std::vector<WOp> ops_direct, ops_installed; std::vector<std::pair<int, int>> universe; /* (-1,n) global | (index into LOCS, j) */ };
 static std::vector<Workload> WL;
 static std::vector<uint64_t> enum_prefix; static uint64_t enum_total = 0;
 static void init_enum() {
-    static const int NS[] = { 12, 12, 30, 30 };
+    static const int NS[] = { 12, 12, 30, 30 };      // workloads 0..3: three ordinary locations
     for (int w = 0; w < 4; w++) {
         Workload W; W.N = NS[w]; W.pairs = w < 2;
         vf::Rng r(0xC15, (uint64_t) w, 7);
@@ -527,6 +580,28 @@ static void init_enum() {
         }
         for (int n = 1; n <= W.N + 2; n++) W.universe.push_back({ -1, n });
         for (int id = 0; id < 3; id++) for (int j = 1; j <= cnt[id] + 1; j++) W.universe.push_back({ id, j });
+        WL.push_back(W);
+    }
+    // workload 4: boundary values of the location dimension. 14 allocations over "<unknown>":0 (named explicitly, and - when
+    // installed - reported by the entry points without location information, whatever location the step names), line 10 and
+    // line 0 of one file, "<unknown>":10 and a line that is 10 modulo 2^16; every single designation and every ordered pair.
+    {
+        Workload W; W.N = 14; W.pairs = true;
+        vf::Rng r(0xC15, 4, 7);
+        int cntd[NLOCID] = {}, cnti[NLOCID] = {};
+        static const int LSB[] = { L_UNK0, L_UNK0, 0, L_A0, L_UNK10, L_A65546 };
+        static const int FLB[] = { F_NEW, F_NEWA, F_MALLOC, F_CALLOC, F_STRDUP, F_STRNDUP, F_MALLOC_NL, F_MALLOC_NL, F_NEW_PLAIN, F_NEWA_PLAIN, F_NEW_NT, F_NEWA_NT };
+        for (int i = 0; i < W.N; i++) {
+            int L = LSB[r.below(6)];
+            WOp d = { L, F_DIRECT, r.range(1, 48), 0 };
+            WOp o = { L, FLB[r.below(12)], r.range(1, 48), 0 };
+            if (o.fam == F_CALLOC) o.aux = 4; if (o.fam == F_STRNDUP) o.aux = r.range(0, 60);
+            W.ops_direct.push_back(d); W.ops_installed.push_back(o);
+            cntd[LOCS[L].id]++; cnti[LOCS[fam_has_loc(o.fam) ? L : L_UNK0].id]++;
+        }
+        for (int n = 1; n <= W.N + 2; n++) W.universe.push_back({ -1, n });
+        static const int LU[] = { L_UNK0, 0, L_A0, L_UNK10, L_A65546 };
+        for (int L : LU) { int id = LOCS[L].id, m = cntd[id] > cnti[id] ? cntd[id] : cnti[id]; for (int j = 1; j <= m + 1; j++) W.universe.push_back({ L, j }); }
         WL.push_back(W);
     }
     for (const Workload& W : WL) {
@@ -559,6 +634,7 @@ static void sec_fault_enum(vf::Ctx& c) {
     char sig[96]; snprintf(sig, sizeof sig, "enum:%d:%d:%d:%d", (int) w, mode, d1, d2);
     run_and_judge(c, b, sig, rule_nontrivial(b));
     c.count(d2 >= 0 ? "fault_points_pairs" : "fault_points_single");
+    if (w >= 4) c.count(d2 >= 0 ? "fault_points_pairs_boundary_locations" : "fault_points_single_boundary_locations");
 }
 
 // ================================================================ where the check is asked for x what is pending (complete table)
@@ -637,7 +713,7 @@ static void sec_name_discrimination(vf::Ctx& c) {
 enum { CO_MALLOC, CO_MALLOC_NL, CO_CALLOC, CO_CALLOC_NL, CO_STRDUP, CO_STRDUP_NL, CO_STRNDUP, CO_STRNDUP_NL, CO_REALLOC, CO_REALLOC_NULL, CO_FREE, CO_SET_COUNTDOWN, CO_SET_OOM, CO_RESTORE, CO_SWITCH, CO_COUNT_RESET, CO_GET_COUNT, CO_N };
 static const char* CO_NAME[] = { "malloc", "malloc-noloc", "calloc", "calloc-noloc", "strdup", "strdup-noloc", "strndup", "strndup-noloc", "realloc", "realloc-from-null", "free", "countdown", "set_out_of_memory", "set_not_out_of_memory", "switch-malloc-allocator", "malloc_count_reset", "malloc_get_count" };
 static bool co_malloc_type(int op) { return op <= CO_STRNDUP_NL; }
-struct CStep { int op, n, size, aux, victim; int d[2], dl; int obs; int served; int count_seen; bool content_bad; bool skipped; bool noop; };
+struct CStep { int op, n, size, aux, victim; int d[2], dl, dlk /* location of the designation dl: 0 "m.c":5, 1 "<unknown>":0 = every entry point without location information */; int obs; int served; int count_seen; bool content_bad; bool skipped; bool noop; };
 // The malloc allocator the test has put in effect: the standard one (0) or one of two failable allocators that count the
 // requests reaching them (1, 2). All carry the standard allocator's name: releasing a block while another one of them is
 // current is then no allocator mismatch for cpputest (releases are outside the statement).
@@ -667,7 +743,7 @@ static void c_body() {
                 TaggedFailable& t = g_T[s.n - 1];
                 t.clearFailedAllocs();
                 for (int k = 0; k < 2; k++) if (s.d[k] > 0) t.failAllocNumber(s.d[k]);
-                if (s.dl > 0) t.failNthAllocAt(s.dl, "m.c", 5);
+                if (s.dl > 0) { if (s.dlk) t.failNthAllocAt(s.dl, F_UNK, 0); else t.failNthAllocAt(s.dl, "m.c", 5); }
                 setCurrentMallocAllocator(&t);
             }
             s.obs = O_OK; continue;
@@ -740,11 +816,11 @@ struct CBuilder {
     void stat(vf::Rng& r) { push(r.chance(65) ? CO_COUNT_RESET : CO_GET_COUNT); }
     void sw(vf::Rng& r, int to = -1) {
         CStep* s = push(CO_SWITCH); s->n = to >= 0 ? to : (int) r.below(3);
-        if (s->n > 0) { for (int k = 0; k < 2; k++) if (r.chance(55)) s->d[k] = r.range(1, 7); if (r.chance(30)) s->dl = r.range(1, 3); }
+        if (s->n > 0) { for (int k = 0; k < 2; k++) if (r.chance(55)) s->d[k] = r.range(1, 7); if (r.chance(30)) { s->dl = r.range(1, 3); s->dlk = r.chance(45) ? 1 : 0; } }
     }
     std::string describe() const {
         std::vector<std::string> it; char b[96];
-        for (int i = 0; i < n; i++) { const CStep& s = g_csteps[i]; if (s.op == CO_SWITCH) snprintf(b, sizeof b, "install %s as malloc allocator (fail #%d #%d, #%d@m.c:5; 0 = none)", EFF_NAME[s.n], s.d[0], s.d[1], s.dl); else if (s.op == CO_SET_COUNTDOWN) snprintf(b, sizeof b, "countdown(%d)", s.n); else if (s.op >= CO_FREE) snprintf(b, sizeof b, "%s", CO_NAME[s.op]); else snprintf(b, sizeof b, "%s %d", CO_NAME[s.op], s.size); it.push_back(vf::jstr(b)); }
+        for (int i = 0; i < n; i++) { const CStep& s = g_csteps[i]; if (s.op == CO_SWITCH) snprintf(b, sizeof b, "install %s as malloc allocator (fail #%d #%d, #%d@%s; 0 = none)", EFF_NAME[s.n], s.d[0], s.d[1], s.dl, s.dlk ? "<unknown>:0" : "m.c:5"); else if (s.op == CO_SET_COUNTDOWN) snprintf(b, sizeof b, "countdown(%d)", s.n); else if (s.op >= CO_FREE) snprintf(b, sizeof b, "%s", CO_NAME[s.op]); else snprintf(b, sizeof b, "%s %d", CO_NAME[s.op], s.size); it.push_back(vf::jstr(b)); }
         return vf::J().k("level", "C").raw("steps", vf::jarr(it)).str();
     }
 };
@@ -795,7 +871,7 @@ static void c_run_and_judge(vf::Ctx& c, CBuilder& b, const std::string& sig) {
     // Its index is judged under two readings as well: it counts the requests that reach it (A) / every request made
     // while it is in effect, also those the simulated out-of-memory answered (B); where they disagree both outcomes
     // are accepted.
-    int eff = 0; bool eff_uncertain = false; int cntA = 0, cntB = 0, locA = 0, locB = 0; std::set<int> D; int DL = 0;
+    int eff = 0; bool eff_uncertain = false; int cntA = 0, cntB = 0, locA = 0, locB = 0; std::set<int> D; int DL = 0, DLK = 0;
     std::set<int> eff_of_earlier_episodes;
     int stat_requests = 0;       // malloc-type requests since the statistics were last reset (observation only)
     bool stat_reset_in_episode = false;   // the statistics were reset since the current injection was set (names the history shape in the key)
@@ -817,7 +893,8 @@ static void c_run_and_judge(vf::Ctx& c, CBuilder& b, const std::string& sig) {
         std::string nm = CO_NAME[s.op];
         std::string cls = s.op <= CO_MALLOC_NL ? "malloc" : s.op <= CO_CALLOC_NL ? "calloc" : s.op <= CO_STRDUP_NL ? "strdup" : s.op <= CO_STRNDUP_NL ? "strndup" : "realloc";
         if (s.op == CO_SWITCH) {
-            eff = s.n; eff_uncertain = false; cntA = cntB = locA = locB = 0; D.clear(); for (int k = 0; k < 2; k++) if (s.d[k] > 0) D.insert(s.d[k]); DL = s.dl;
+            eff = s.n; eff_uncertain = false; cntA = cntB = locA = locB = 0; D.clear(); for (int k = 0; k < 2; k++) if (s.d[k] > 0) D.insert(s.d[k]); DL = s.dl; DLK = s.dlk;
+            if (eff && DL > 0 && DLK) c.count("c_switch_to_failable_with_designation_at_unknown_file_line_0");
             c.count(eff ? "c_switch_to_failable_malloc_allocator" : "c_switch_to_standard_malloc_allocator"); continue;
         }
         if (s.op == CO_SET_COUNTDOWN) { for (Cand& k : cand) { k.alive = true; k.remaining = s.n; k.oom = s.n == 0; } armed = true; direct = false; reqs_since_set = 0; stat_reset_in_episode = false; c.count("c_countdowns_set"); continue; }
@@ -847,12 +924,16 @@ static void c_run_and_judge(vf::Ctx& c, CBuilder& b, const std::string& sig) {
         else { pred[0] = false; step_count(cand[1]); pred[1] = cand[1].oom; }
         // the failable allocator in effect: is this request one of its designated ones?
         int recv = s.served;        // bit set of the failable allocators the request reached
-        bool desA = false, desB = false;
+        bool desA = false, desB = false, lochit = false;
         if (eff != 0 && !isrealloc) {
-            bool atloc = s.op == CO_MALLOC;
+            // the designated location: "m.c":5 (only CO_MALLOC allocates there) or "<unknown>":0 (what the four entry points
+            // without location information report)
+            bool atloc = DLK ? (s.op == CO_MALLOC_NL || s.op == CO_CALLOC_NL || s.op == CO_STRDUP_NL || s.op == CO_STRNDUP_NL) : s.op == CO_MALLOC;
             cntB++; if (atloc) locB++;
             desB = D.count(cntB) != 0 || (atloc && DL > 0 && locB == DL);
-            if (recv == eff) { cntA++; if (atloc) locA++; desA = D.count(cntA) != 0 || (atloc && DL > 0 && locA == DL); }
+            if (atloc && DL > 0 && locB == DL) lochit = true;
+            if (recv == eff) { cntA++; if (atloc) locA++; desA = D.count(cntA) != 0 || (atloc && DL > 0 && locA == DL); if (atloc && DL > 0 && locA == DL) lochit = true; }
+            if (DLK && DL > 0) c.count(atloc ? "c_request_without_location_information_while_unknown_file_line_0_designated" : "c_request_with_location_while_unknown_file_line_0_designated");
         }
         // does candidate k explain the observation? 0 yes; otherwise the kind of disagreement
         enum { JX_FITS = 0, JX_SHOULD_FAIL, JX_SHOULD_SUCCEED, JX_SERVED_BY_OTHER, JX_DESIGNATED_SUCCEEDED, JX_UNDESIGNATED_FAILED };
@@ -877,13 +958,13 @@ static void c_run_and_judge(vf::Ctx& c, CBuilder& b, const std::string& sig) {
             if (why == JX_SHOULD_SUCCEED) viol_once(c, seen, "c-" + phase + ":failed-but-should-succeed:" + cls, where + " returned NULL");
             else if (why == JX_SHOULD_FAIL) viol_once(c, seen, "c-" + phase + ":succeeded-but-should-fail:" + cls, where + " returned a block");
             else if (why == JX_SERVED_BY_OTHER) viol_once(c, seen, "c-" + phase + ":served-by-other-than-the-allocator-in-effect", where + " was answered by " + (recv == 0 ? std::string("an allocator other than the installed failable ones") : std::string("failable allocator(s) bitset ") + std::to_string(recv)) + (failed ? " (NULL)" : " (block)"));
-            else if (why == JX_DESIGNATED_SUCCEEDED) viol_once(c, seen, "c-" + phase + ":failable-in-effect:designated-succeeded", where + " is request " + std::to_string(cntA) + " reaching the failable allocator (" + std::to_string(cntB) + " made), designated, but returned a block");
-            else viol_once(c, seen, "c-" + phase + ":failable-in-effect:undesignated-failed", where + " is request " + std::to_string(cntA) + " reaching the failable allocator (" + std::to_string(cntB) + " made), not designated, but returned NULL");
+            else if (why == JX_DESIGNATED_SUCCEEDED) viol_once(c, seen, "c-" + phase + ":failable-in-effect:designated-succeeded" + (DLK && DL > 0 ? ":with-designation-at-unknown-file-line-0" : ""), where + " is request " + std::to_string(cntA) + " reaching the failable allocator (" + std::to_string(cntB) + " made), designated, but returned a block");
+            else viol_once(c, seen, "c-" + phase + ":failable-in-effect:undesignated-failed" + (DLK && DL > 0 ? ":with-designation-at-unknown-file-line-0" : ""), where + " is request " + std::to_string(cntA) + " reaching the failable allocator (" + std::to_string(cntB) + " made), not designated, but returned NULL");
             break;      // later predictions depend on this one
         }
         bool by_oom = false;
         for (int k = 0; k < 2; k++) { if (ex[k] != JX_FITS) cand[k].alive = false; else if (cand[k].alive && pred[k]) by_oom = true; }
-        if (failed && !by_oom && !isrealloc) c.count("c_failable_in_effect_designation_fired");
+        if (failed && !by_oom && !isrealloc) { c.count("c_failable_in_effect_designation_fired"); if (DLK && lochit) c.count("c_failable_in_effect_designation_at_unknown_file_line_0_fired"); }
         else if (failed) { saw_fail = true; c.count("c_requests_failed_as_designated"); } else { if (armed) saw_ok_before = true; c.count("c_requests_succeeded"); }
         if (!failed && !isrealloc) {
             if (eff != 0 && recv == eff) { c.count(desA != desB ? "c_failable_in_effect_designation_reading_ambiguous" : "c_request_served_by_failable_in_effect"); if (restored_once && !armed) c.count("c_request_served_by_failable_in_effect_after_restore"); }
@@ -919,7 +1000,7 @@ static void sec_c_switch_enum(vf::Ctx& c) {
     uint64_t i = c.idx; CBuilder b; vf::Rng r(0xC15E, c.idx, 3);
     for (int e = 0; e < 3; e++) {
         int a = (int) (i % 3); i /= 3; int kind = (int) (i % 2); i /= 2;
-        CStep* s = b.push(CO_SWITCH); s->n = a; if (a) { s->d[0] = 2; s->d[1] = 5 + e; }
+        CStep* s = b.push(CO_SWITCH); s->n = a; if (a) { s->d[0] = 2; s->d[1] = 5 + e; if (e) { s->dl = 1; s->dlk = 1; } }      // 2nd/3rd episode: also the 1st request without location information
         b.malloc_type(r, CO_MALLOC);
         if (kind == 0) { b.push(CO_SET_COUNTDOWN)->n = 2; b.malloc_type(r, CO_STRDUP); b.malloc_type(r, CO_MALLOC_NL); b.malloc_type(r, CO_CALLOC); }
         else { b.push(CO_SET_OOM); b.malloc_type(r, CO_MALLOC); b.malloc_type(r, CO_STRNDUP); }
